@@ -69,6 +69,8 @@ func (p Payload) Bytes() []byte {
 		return b
 	case "text":
 		return []byte(fmt.Sprintf("payload-%d-%s", p.Seed, strings.Repeat("x", p.N)))
+	case "rep": // long and compressible: its gzip form is much shorter than the payload
+		return []byte(strings.Repeat(fmt.Sprintf("line %d of a compressible payload\n", p.Seed), 100+p.N*60))
 	case "framing":
 		// bytes that look like the framing of the upload protocols: line breaks at both ends, a multipart delimiter,
 		// a part header, a gzip magic number
@@ -110,6 +112,8 @@ type Op struct {
 	Chunks []Chunk           `json:"chunks,omitempty"`
 	// RetryFinal: after a resumable upload was rejected for its declared MD5, send the finalisation once more.
 	RetryFinal bool `json:"retryfinal,omitempty"`
+	// Chunked: the request bodies of this upload carry no Content-Length.
+	Chunked bool `json:"chunked,omitempty"`
 	// EmptyMeta: send "metadata": {} (present but empty) when Meta is empty.
 	EmptyMeta bool `json:"emptymeta,omitempty"`
 
